@@ -795,3 +795,86 @@ func REscForms(c *core.Ctx) {
 		c.Anchor("backslash forms written by escape()")
 	}
 }
+
+// R-EXCLEND: an exclusive end is not decremented twice.
+// A helper whose loop starts at `end - 1` takes an EXCLUSIVE end.  A caller
+// that wants to look at everything in front of a position passes the position;
+// passing `pos - 1` skips the character directly in front of it.
+func RExclEnd(c *core.Ctx) {
+	c.Rule("R-EXCLEND", "for every function of package regexp2 one of whose int parameters is used only as `param - 1` (an exclusive end: the scan starts one below it), no call site passes an argument that is itself `x - 1` of a position: the element directly in front of the position would never be examined", 1)
+	p := c.P
+	type key struct {
+		fn  *ssa.Function
+		idx int
+	}
+	excl := map[key]bool{}
+	for _, fn := range p.ModuleFuncs() {
+		if core.FnPkgPath(fn) != core.PkgRoot || len(fn.Blocks) == 0 {
+			continue
+		}
+		for i, prm := range fn.Params {
+			if b, ok := prm.Type().Underlying().(*types.Basic); !ok || b.Kind() != types.Int {
+				continue
+			}
+			refs := core.Referrers(prm)
+			if len(refs) == 0 {
+				continue
+			}
+			all := true
+			for _, r := range refs {
+				bin, ok := r.(*ssa.BinOp)
+				if !ok || bin.Op != token.SUB || bin.X != ssa.Value(prm) {
+					all = false
+					break
+				}
+				k, ok := bin.Y.(*ssa.Const)
+				if !ok || k.Value == nil || k.Value.Kind() != constant.Int {
+					all = false
+					break
+				}
+				if v, _ := constant.Int64Val(k.Value); v != 1 {
+					all = false
+				}
+			}
+			if all {
+				excl[key{fn, i}] = true
+			}
+		}
+	}
+	n, sites := 0, 0
+	for _, fn := range p.ModuleFuncs() {
+		if !core.InModule(fn) {
+			continue
+		}
+		for _, b := range fn.Blocks {
+			for _, ins := range b.Instrs {
+				call, ok := ins.(ssa.CallInstruction)
+				if !ok {
+					continue
+				}
+				cal := call.Common().StaticCallee()
+				if cal == nil {
+					continue
+				}
+				for i, a := range call.Common().Args {
+					if !excl[key{cal, i}] {
+						continue
+					}
+					sites++
+					if bin, ok := a.(*ssa.BinOp); ok && bin.Op == token.SUB {
+						if k, ok := bin.Y.(*ssa.Const); ok && k.Value != nil && k.Value.Kind() == constant.Int {
+							if v, _ := constant.Int64Val(k.Value); v == 1 {
+								n++
+								c.Visit(core.SSAName(fn))
+								c.Bad(fmt.Sprintf("%s / exclusive end of %s decremented by the caller #%d", core.SSAName(fn), core.BaseName(cal), n), call.Pos(), "`%s` is passed as the end of %s, which already starts one below its end: the character directly in front of the position is skipped — a right-to-left search misses a match that ends exactly at the start offset and drops adjacent matches", bin.String(), core.BaseName(cal))
+							}
+						}
+					}
+				}
+			}
+		}
+	}
+	if n == 0 {
+		c.OK("package regexp2 / no exclusive end is decremented by its caller", token.NoPos, "%d functions with an exclusive-end parameter, %d call sites examined", len(excl), sites)
+	}
+}
